@@ -9,10 +9,15 @@ import CnvVerif.Driver.Access
 import CnvVerif.Driver.Genes
 import CnvVerif.Driver.Formats
 import CnvVerif.Driver.Export
+import CnvVerif.Driver.Reference
+import CnvVerif.Driver.Coverage
+import CnvVerif.Driver.Effects
+import CnvVerif.Driver.Bins
+import CnvVerif.Driver.Vcf
 open Lean CnvVerif.Drv
 
 def handlers : List (String → Json → Option Json → R (Option Json)) :=
-  [handleInterval, handleCall, handleSegFilter, handleTile, handleCenter, handleFix, handleAccess, Genes.handleGenes, handleFormats, handleExport]
+  [handleInterval, handleCall, handleSegFilter, handleTile, handleCenter, handleFix, handleAccess, Genes.handleGenes, handleFormats, handleExport, Reference.handleReference, handleCoverage, handleEffects, handleBins, handleVcf]
 
 def dispatch (op : String) (inp : Json) (impl : Option Json) : R Json := do
   for h in handlers do
